@@ -501,6 +501,8 @@ func textKernels(only string, suffix []string) []Unit {
 		mk("date/print-then-parse", "HarnessDatePrintParse", "SerializableDate.MarshalJSON then UnmarshalJSON on an arbitrary valid calendar date (symbolic year 0..9999, month, day with leap years): marshalling succeeds, the text parses back, and to the same date", "years 0..9999; "+model),
 		mk("date/parse-then-print", "HarnessDateParsePrint", "SerializableDate.UnmarshalJSON on L symbolic bytes for every length L: no panic; whenever the bytes are accepted (other than null), MarshalJSON returns exactly those bytes", "lengths 0..13 quick, 0..21 thorough; "+model),
 		mk("time/print-then-parse", "HarnessTimePrintParse", "the same for SerializableTime on an arbitrary time of day (whole seconds)", model),
+		mk("date/all-or-nothing", "HarnessDateAllOrNothing", "SerializableDate.UnmarshalJSON on L symbolic bytes for every length L with an arbitrary prior date in the receiver: no panic, and when an error is returned the receiver still holds the prior value", "lengths 0..13 quick, 0..21 thorough; "+model),
+		mk("time/all-or-nothing", "HarnessTimeAllOrNothing", "the same for SerializableTime with an arbitrary prior time of day", "lengths 0..13 quick, 0..21 thorough; "+model),
 		mk("time/parse-then-print", "HarnessTimeParsePrint", "SerializableTime.UnmarshalJSON on L symbolic bytes for every length L: no panic; accepted bytes are reproduced by MarshalJSON", "lengths 0..13 quick, 0..21 thorough; "+model),
 	}
 }
@@ -532,12 +534,16 @@ func init() {
 			properties["C20"].Units = append(properties["C20"].Units, u)
 		}
 	}
-	properties["C02"].Units = append(properties["C02"].Units, textKernels("C02.", nil)...)
+	for _, u := range textKernels("C02.", nil) {
+		if !strings.Contains(u.Name, "all-or-nothing") {
+			properties["C02"].Units = append(properties["C02"].Units, u)
+		}
+	}
 	// C19 owns the "never panics" side of the same kernels: on symbolic bytes of every length the
 	// wrappers' UnmarshalJSON returns nil or an error (a panic path is a violation of the unit's
 	// panic policy; the round-trip checks belong to C02)
 	for _, u := range textKernels("C19.", nil) {
-		if strings.Contains(u.Name, "parse-then-print") {
+		if strings.Contains(u.Name, "parse-then-print") || strings.Contains(u.Name, "all-or-nothing") {
 			properties["C19"].Units = append(properties["C19"].Units, u)
 		}
 	}
